@@ -69,7 +69,7 @@ def run_inter(case, mon):
     rng = gen.rng_for(case['seed'], case['idx'], 4)
     sample = None
     for k in range(4):
-        w = work_inter.draw(rng, maxsites=5)
+        w = work_inter.draw(rng, maxsites=5, noncentro=0.2)
         if w is None: continue
         crys, chem, sl, jn, N = w['crys'], w['chem'], w['sl'], w['jn'], w['N']
         pre, bE, preT, bET = w['pre'], w['bE'], w['preT'], w['bET']
